@@ -86,10 +86,17 @@ Definition opt_nat_eqb (a b : option nat) : bool :=
 Definition sim_same (a b : indiv) : bool :=
   f_eq (fitness a) (fitness b) && opt_nat_eqb (ngen a) (ngen b) && (gclass a =? gclass b).
 
-(* which `similar` the front was built with: operator.eq (uid) or _individuals_same *)
-Inductive simkind := SimUid | SimSame.
+(* which `similar` the container was built with: operator.eq (uid), _individuals_same, or a
+   user-supplied function - "same structure" (graph equality only, no fitness), never, always *)
+Inductive simkind := SimUid | SimSame | SimGraph | SimNever | SimAlways.
 Definition sim_of (s : simkind) : indiv -> indiv -> bool :=
-  match s with SimUid => sim_uid | SimSame => sim_same end.
+  match s with
+  | SimUid => sim_uid
+  | SimSame => sim_same
+  | SimGraph => fun a b => gclass a =? gclass b
+  | SimNever => fun _ _ => false
+  | SimAlways => fun _ _ => true
+  end.
 
 Definition pf_upd (s : simkind) (cap : nat) : hof -> list indiv -> hof :=
   pf_update fitness f_worse f_dom f_eq (sim_of s) cap.
